@@ -472,11 +472,11 @@ def check_c04(ctx):
     check_foreign_part(ctx, C, 'C04.O1x')
     # T17 atomic_save delegates
     f = prog.func(MOD + '.atomic_save')
-    rets = [n for n in ast.walk(f.node) if isinstance(n, ast.Return)]
-    ok = len(rets) == 1 and isinstance(rets[0].value, ast.Call) and \
-        mod.resolve_name(call_name(rets[0].value)) == 'AtomicSaver' and \
-        [txt(a) for a in rets[0].value.args] == ['dest_path'] and \
-        [(k.arg, txt(k.value)) for k in rets[0].value.keywords] == [(None, 'kwargs')]
+    from rules.common import returned_values
+    rvs = [e for e, _, _ in returned_values(prog, f)]
+    ok = bool(rvs) and all(isinstance(e, ast.Call) and mod.resolve_name(call_name(e)) == 'AtomicSaver' and
+                           [txt(a) for a in e.args] == ['dest_path'] and
+                           [(k.arg, txt(k.value)) for k in e.keywords] == [(None, 'kwargs')] for e in rvs)
     # ... with the caller's options untouched (no option is defaulted or rewritten on the way)
     kwname = f.node.args.kwarg.arg if f.node.args.kwarg else None
     touched = [n for n in ast.walk(f.node) if kwname and (
